@@ -13,6 +13,9 @@ STREAM_SPECS = {
     'base8':      ({'enc_mode': 8, 'logical_processors': 1}, {'kind': 'mix', 'seed': 3}, 8, (64, 64)),
     'tiles2x2':   ({'enc_mode': 6, 'tile_columns': 1, 'tile_rows': 1, 'logical_processors': 2}, {'kind': 'moving', 'seed': 5}, 8, (256, 192)),
     'tiles4x2':   ({'enc_mode': 8, 'tile_columns': 2, 'tile_rows': 1, 'logical_processors': 2}, {'kind': 'mix', 'seed': 6}, 6, (512, 256)),
+    'tiles1x2':   ({'enc_mode': 8, 'tile_columns': 1, 'tile_rows': 0, 'logical_processors': 2}, {'kind': 'moving', 'seed': 16}, 6, (256, 192)),   # more tile columns than rows
+    'tiles2x1':   ({'enc_mode': 8, 'tile_columns': 0, 'tile_rows': 1, 'logical_processors': 2}, {'kind': 'moving', 'seed': 17}, 6, (192, 256)),   # more tile rows than columns
+    'tiles1x4':   ({'enc_mode': 8, 'tile_columns': 2, 'tile_rows': 0, 'logical_processors': 2}, {'kind': 'mix', 'seed': 18}, 5, (512, 192)),
     'ten':        ({'enc_mode': 7, 'encoder_bit_depth': 10, 'logical_processors': 1}, {'kind': 'mix', 'seed': 7}, 5, (64, 64)),
     'grain':      ({'enc_mode': 8, 'film_grain_denoise_strength': 10, 'logical_processors': 1}, {'kind': 'noise', 'seed': 8}, 5, (64, 64)),
     'lr_cdef':    ({'enc_mode': 4, 'enable_restoration_filtering': 1, 'cdef_level': 1, 'logical_processors': 2}, {'kind': 'hgrad', 'seed': 9}, 4, (128, 128)),
@@ -131,7 +134,7 @@ def check_c09(tier, seed):
                   'oracle: pictures byte-identical to the single-threaded result, no ASan report, no DEADLOCK/LIVELOCK, deinit + deinit_handle return with all workers joined and the allocation ledger empty; distinct = distinct (stream, threads, decision trace)')
     ck.ev.components = DEC_COMPONENTS; ck.ev.assumptions = ['instruction-level data races on volatile flags are outside the model (orderings of whole segments between scheduling points are explored)']
     variant = 'asan'; core.build(variant); core.build('plain'); rng = ck.rng
-    names = ['base8', 'tiles2x2', 'lr_cdef', 'mfmv_wide'] if tier == 'quick' else ['base8', 'tiles2x2', 'tiles4x2', 'lr_cdef', 'mfmv_wide', 'sb128', 'grain', 'superres', 'ten', 'overlay']
+    names = ['base8', 'tiles2x2', 'tiles1x2', 'tiles2x1', 'lr_cdef', 'mfmv_wide'] if tier == 'quick' else ['base8', 'tiles2x2', 'tiles1x2', 'tiles2x1', 'tiles1x4', 'tiles4x2', 'lr_cdef', 'mfmv_wide', 'sb128', 'grain', 'superres', 'ten', 'overlay']
     st = make_streams(names, ck)
     fams = []
     for nm, s in st.items():
